@@ -145,6 +145,7 @@ package heap
 //@ pure hwf(h *Heap) bool = h != nil && wf(h.pq) && rootmin(h.pq)
 //@ pure hhas(h *Heap, s string) bool = has(h.pq, s)
 //@ pure hprio(h *Heap, s string) int = prio(h.pq, s)
+//@ pure top(h *Heap) *Item = h.pq.queue[0]
 
 //@ func newPriorityQueue
 //@   tags C01
@@ -180,6 +181,7 @@ package heap
 //@   safety nil, index
 //@   requires hwf(h)
 //@   ensures [C01] result1 == (len(h.pq.queue) > 0)
+//@   ensures [C01] peek-is-top: result1 ==> result0 == top(h)
 //@   ensures [C01] peek-is-min: result1 ==> result0 != nil && hhas(h, result0.name) && hprio(h, result0.name) == result0.priority
 //@                       && (forall s string :: hhas(h, s) ==> result0.priority <= hprio(h, s))
 //@   ensures [C01] !result1 ==> result0 == nil && (forall s string :: !hhas(h, s))
@@ -199,6 +201,7 @@ package heap
 //@   ensures [C01] view: forall s string :: hhas(h, s) == (old(hhas(h, s)) || s == name)
 //@   ensures [C01] others-keep-priority: forall s string :: old(hhas(h, s)) ==> hprio(h, s) == old(hprio(h, s))
 //@   ensures [C01] new-priority: hprio(h, name) == priority
+//@   ensures [C01] items-keep-identity: forall p *Item :: !fresh(p) ==> p.name == old(p.name) && p.priority == old(p.priority)
 
 //@ func Heap.Pop
 //@   tags C01
@@ -206,6 +209,8 @@ package heap
 //@   requires hwf(h) && len(h.pq.queue) > 0
 //@   modifies *h.pq, arrays(*Item), mapof(h.pq.names), heap(Item)
 //@   ensures [C01] hwf(h)
+//@   ensures [C01] pops-top: result == old(top(h))
+//@   ensures [C01] items-keep-identity: forall p *Item :: p.name == old(p.name) && p.priority == old(p.priority)
 //@   ensures [C01] pops-min: result != nil && old(hhas(h, result.name)) && result.priority == old(hprio(h, result.name))
 //@                       && (forall s string :: old(hhas(h, s)) ==> result.priority <= old(hprio(h, s)))
 //@   ensures [C01] view: forall s string :: hhas(h, s) == (old(hhas(h, s)) && s != result.name)
@@ -219,6 +224,7 @@ package heap
 //@   ensures [C01] hwf(h)
 //@   ensures [C01] view: forall s string :: hhas(h, s) == old(hhas(h, s))
 //@   ensures [C01] priorities: forall s string :: hhas(h, s) ==> hprio(h, s) == (s == name ? newPriority : old(hprio(h, s)))
+//@   ensures [C01] items-keep-name: forall p *Item :: p.name == old(p.name)
 
 //@ func Heap.Delete
 //@   tags C01
@@ -228,3 +234,4 @@ package heap
 //@   ensures [C01] hwf(h)
 //@   ensures [C01] view: forall s string :: hhas(h, s) == (old(hhas(h, s)) && s != name)
 //@   ensures [C01] others-keep-priority: forall s string :: hhas(h, s) ==> hprio(h, s) == old(hprio(h, s))
+//@   ensures [C01] items-keep-identity: forall p *Item :: p.name == old(p.name) && p.priority == old(p.priority)
